@@ -139,3 +139,15 @@ REG.contract(
     raises={"TypeError": ("not is_cls(copy_from, 'Block')", "prop"),
             "NameError": ("is_cls(copy_from, 'Block') and link(gid(field(self, '_data')), dname) != 0", "prop")},
     prop_clauses=["raises-only:TypeError", "raises-only:NameError", "refused-before-cut:TypeError", "refused-before-cut:NameError"])
+
+REG.contract(
+    "nixio.file.File.copy_section", props=["C20", "C12"], prefix=True,
+    params=dict(self=Obj("File"), obj=Dyn, children=Bool, keep_id=Bool, name=Str),
+    requires=["is_obj(obj)", "target_obj(obj) != 0", "is_str(dec(attr(target_obj(obj), 'name')))",
+              "gid(field(self, '_metadata')) != 0"],
+    modifies=["link", "ord", "kind", "fresh", "attr", "data", "dshape", "dtype"],
+    let="dname = ite_(len(name) == 0, as_str(dec(attr(target_obj(obj), 'name'))), name)",
+    # the destination container of a file-level section copy is the metadata root: an existing name THERE is refused
+    raises={"TypeError": ("not is_cls(obj, 'Section')", "prop"),
+            "NameError": ("is_cls(obj, 'Section') and link(gid(field(self, '_metadata')), dname) != 0", "prop")},
+    prop_clauses=["raises-only:TypeError", "raises-only:NameError", "refused-before-cut:TypeError", "refused-before-cut:NameError"])
